@@ -130,7 +130,7 @@ func Build(variant string) (string, error) {
 	case "race":
 		args = append(args, "-race")
 	case "cover":
-		args = append(args, "-cover", "-covermode=count", "-coverpkg=github.com/ajitpratap0/GoSQLX/pkg/...")
+		args = append(args, "-cover", "-covermode=atomic", "-coverpkg=github.com/ajitpratap0/GoSQLX/pkg/...,verifharness/cmd/vh")
 	}
 	args = append(args, "./cmd/vh")
 	cmd := exec.Command("go", args...)
